@@ -349,6 +349,53 @@ impl Space for Scale {
     }
 }
 
+/// Static checking terminates also where the inferred return types of hoisted functions feed
+/// each other: three functions whose bodies are one `return` over a call of another one, every
+/// combination of expression forms and both wirings (f -> g -> h -> f and f -> g -> f, h -> h).
+struct ReturnTypeCycles;
+
+const RET_FORMS: &[&str] = &[
+    "X(n)", "not X(n)", "minus X(n)", "X(n) na 1", "X(n) add 1", "X(n) add \"s\"", "X(n) minus 1", "X(n) and true", "[X(n)]", "X(n).len()",
+    "X(n) or null", "X(n) na \"s\"",
+];
+
+impl ReturnTypeCycles {
+    fn text(i: u64) -> String {
+        let k = RET_FORMS.len() as u64;
+        let (a, b, c, wiring) = (i % k, (i / k) % k, (i / (k * k)) % k, i / (k * k * k));
+        let form = |idx: u64, callee: &str| RET_FORMS[idx as usize].replace('X', callee);
+        let (fg, gh, hf) = if wiring == 0 { ("g", "h", "f") } else { ("g", "f", "h") };
+        format!(
+            "do f(n) start if to say (n small pass 1) start return true end return {} end\ndo g(n) start return {} end\ndo h(n) start return {} end\nshout(f(0))\n",
+            form(a, fg), form(b, gh), form(c, hf)
+        )
+    }
+}
+
+impl Space for ReturnTypeCycles {
+    fn id(&self) -> String {
+        "return-type-cycles-fast".into()
+    }
+    fn size(&self) -> u64 {
+        2 * (RET_FORMS.len() as u64).pow(3)
+    }
+    fn profile(&self) -> Profile {
+        Profile::Fast
+    }
+    fn chunk(&self) -> u64 {
+        64
+    }
+    fn case_timeout_ms(&self) -> u64 {
+        20_000
+    }
+    fn describe(&self, i: u64) -> String {
+        Self::text(i)
+    }
+    fn run(&self, ctx: &mut Ctx, i: u64) -> Outcome {
+        check_text(ctx, &Self::text(i))
+    }
+}
+
 /// Very long token runs through the lexer alone: a unit repeated 2^k times for k far beyond what
 /// the whole front end is pushed through (per-token recursion or quadratic rescans show here).
 struct DeepLex {
@@ -504,6 +551,7 @@ pub fn spaces(tier: Tier) -> Vec<Box<dyn Space>> {
     v.push(Box::new(Nesting { texts: crate::props::c08::syntactic_shape_texts(if t { &[4, 16, 64, 200, 256, 300, 1024, 4096] } else { &[4, 64, 128, 200, 230, 256, 1024] }) }));
     let units = diagnostic_units();
     v.push(Box::new(Scale { profile: Profile::Poison, units: units.clone(), ks: if t { (0..=14).collect() } else { vec![0, 1, 6, 11] } }));
+    v.push(Box::new(ReturnTypeCycles));
     // quick: every single-atom unit (with a blank or a newline after it) at 2^20; thorough: every unit at 2^17 and 2^20
     let deep_units: Vec<String> = if t {
         units.clone()
